@@ -318,7 +318,7 @@ def startup_interleavings(run, only=None, variants=((False, None), (True, 3))):
                  ('prepare;close;_call', seq('prepare', 'close', '_call')), ('prepare;close;prepare', seq('prepare', 'close', 'prepare')),
                  ('_call;close;_call', seq('_call', 'close', '_call')), ('close;_call', seq('close', '_call')),
                  ('prepare;close', seq('prepare', 'close')), ('_call;close', seq('_call', 'close'))]
-    run.path_cap = 400000
+    run.path_cap = 400000 if variants != ((True, 4),) else 3000000
     for mname, call in scenarios:
         if only is not None and mname not in only:
             continue
